@@ -19,6 +19,7 @@ func checkC07(c *Ctx, r *Report) {
 	r.Assumptions = append(r.Assumptions, "the parse stack holds one entry per symbol of the viable prefix (C01)")
 	st := c.GetStaged()
 	stagedErrors(r, "C07", st)
+	c07Flows(c, r)
 	// the Dollar window and the returned *ValType point into the stack array: it must belong to one parse
 	c15FreshStackAll(r, "C07.b←C15.c", st)
 	type backend struct {
